@@ -10,6 +10,7 @@ for m in . ./tests ./tests/helpers/other; do
   p=$(printf '%s\n' "$out" | grep -c '"Action":"pass","Package":"[^"]*","Test"')
   f=$(printf '%s\n' "$out" | grep -c '"Action":"fail"')
   pass=$((pass+p)); fail=$((fail+f))
+  if [ "$p" = 0 ] && [ "$m" != "./tests/helpers/other" ]; then printf '%s\n' "$out" | tail -5 >&2; fi
   if [ "$f" != 0 ]; then printf '%s\n' "$out" | grep '"Action":"fail"' | head -20; printf '%s\n' "$out" | grep '"Output"' | grep -v '^\s*$' | tail -40; fi
 done
 (cd "$REPO" && git checkout -q go.work.sum 2>/dev/null)
